@@ -457,7 +457,7 @@ func (fd *Client) Query(input *dynamodb.QueryInput) (*dynamodb.QueryOutput, erro
 	output := &dynamodb.QueryOutput{
 		Items:            mapItemSliceToDynamodb(items),
 		Count:            &count,
-		LastEvaluatedKey: mapAttributeValueToDynamodb(lastKey),
+		LastEvaluatedKey: mapLastEvaluatedKey(lastKey),
 	}
 
 	return output, nil
@@ -508,7 +508,7 @@ func (fd *Client) Scan(input *dynamodb.ScanInput) (*dynamodb.ScanOutput, error) 
 	output := &dynamodb.ScanOutput{
 		Items:            mapItemSliceToDynamodb(items),
 		Count:            &count,
-		LastEvaluatedKey: mapAttributeValueToDynamodb(lastKey),
+		LastEvaluatedKey: mapLastEvaluatedKey(lastKey),
 	}
 
 	return output, nil
